@@ -4,7 +4,8 @@
 # crates are pointed at that copy, patches are applied to it, and every check's quick tier runs
 # there.   what = neutral | seeded | neutral-wire (wire-sim and miri parts only)
 set -u
-what=${1:-neutral}
+what=${1:-neutral}; shift || true
+ONLY="$*"   # optional list of ids (neutral) to restrict to
 REPO=${VP_RUN_REPO:?run me through vp run --with-repo}
 HERE=$(cd "$(dirname "$0")" && pwd)
 cd "$HERE" || exit 2
@@ -17,6 +18,7 @@ case $what in
 neutral|neutral-wire)
   for d in neutral/*/; do
     id=$(basename "$d")
+    if [ -n "$ONLY" ] && ! echo " $ONLY " | grep -q " $id "; then continue; fi
     git -C "$REPO" apply "$HERE/$d/patch.diff" || { echo "$id: patch does not apply"; bad=1; continue; }
     n=0; ok=0
     for p in C01 C02 C06 C07 C08 C09 C10 C11 C12 C13 C14 C15 C17 C18 C20; do
